@@ -75,6 +75,7 @@ type c09Acct struct {
 	rootKind string
 	capCmp   map[string]string // comparisons pending vs cap seen: op
 	addExits int
+	goDone   map[string]bool          // go statements (per calling context) whose body was explored
 	lockAt   map[ssa.Instruction]Mode // weakest lock mode held at an instruction over all explored contexts
 	addOKs   int
 }
@@ -532,7 +533,7 @@ func (a *c09Acct) instr(pf *PathFlow, in ssa.Instruction, replay bool, st PState
 		return one(st)
 	case *ssa.UnOp:
 		if x.Op == token.MUL {
-			if f, ok := k.addrField(x.X); ok && f == k.fPend {
+			if f, ok := k.addrFieldR(x.X); ok && f == k.fPend {
 				if i, ok := a.loadIdx(x); ok {
 					st.B &^= c09Bit(i, bWasPos) | c09Bit(i, bWasZero) | c09Bit(i, bZF)
 					st.B |= c09Bit(i, bCur)
@@ -547,43 +548,74 @@ func (a *c09Acct) instr(pf *PathFlow, in ssa.Instruction, replay bool, st PState
 		}
 		return one(st)
 	case *ssa.Store:
-		f, ok := k.addrField(x.Addr)
-		if !ok {
-			return one(st)
-		}
-		if fl, val, ok := k.flagStore(in); ok && fl == k.fFlag {
-			st.A &^= aFlagT | aFlagF
-			if val {
-				st.A |= aFlagT
-			} else {
-				st.A |= aFlagF
-			}
-			return one(st)
-		}
-		switch f {
-		case k.fPend:
-			return one(a.storePend(pf, st, x))
-		case k.fTimer:
-			st.A &^= aTimerNil | aArmedInit
-			if isNilConst(x.Val) {
-				st.A |= aTimerNil
-			} else {
-				switch a.armedWith(pf, x.Val) {
-				case 1:
-					st.A |= aArmedInit
-				case -1:
-					st.A |= aArmedBad
+		if fl, val, ok := k.flagStore(in); ok {
+			if fl == k.fFlag {
+				st.A &^= aFlagT | aFlagF
+				if val {
+					st.A |= aFlagT
+				} else {
+					st.A |= aFlagF
 				}
 			}
-		case k.fCur:
-			st.A &^= aCurInit
-			if t := k.term(pf, x.Val); t.kind == 2 && t.field == k.fInit {
-				st.A |= aCurInit
+			return one(st)
+		}
+		for _, s := range k.stateStores(in) {
+			if s.multi {
+				// a value that is not known precisely
+				for _, rf := range []string{k.fPend, k.fFlag, k.fTimer, k.fCur, k.fBackoff} {
+					if rf == s.field && rf != "" {
+						a.problem("%s is assigned through a struct value that is not a simple literal in %s", rf, k.fname(in.Parent()))
+					}
+				}
+				switch s.field {
+				case k.fPend:
+					st = c09ClearKnowledge(st)
+				case k.fFlag:
+					st.A &^= aFlagT | aFlagF
+				case k.fTimer:
+					st.A &^= aTimerNil | aArmedInit
+				case k.fCur:
+					st.A &^= aCurInit
+				case k.fBackoff:
+					st.A &^= aBfOne
+				}
+				continue
 			}
-		case k.fBackoff:
-			st.A &^= aBfOne
-			if t := k.term(pf, x.Val); t.kind == 1 && t.k == 1 {
-				st.A |= aBfOne
+			switch s.field {
+			case k.fFlag:
+				// a plain bool flag set by a sub-struct assignment
+				st.A &^= aFlagT | aFlagF
+				if s.zero {
+					st.A |= aFlagF
+				}
+			case k.fPend:
+				st = a.storePend(pf, st, x, s)
+			case k.fTimer:
+				st.A &^= aTimerNil | aArmedInit
+				if s.zero || isNilConst(s.val) {
+					st.A |= aTimerNil
+				} else {
+					switch a.armedWith(pf, s.val) {
+					case 1:
+						st.A |= aArmedInit
+					case -1:
+						st.A |= aArmedBad
+					}
+				}
+			case k.fCur:
+				st.A &^= aCurInit
+				if !s.zero {
+					if t := k.term(pf, s.val); t.kind == 2 && t.field == k.fInit {
+						st.A |= aCurInit
+					}
+				}
+			case k.fBackoff:
+				st.A &^= aBfOne
+				if !s.zero {
+					if t := k.term(pf, s.val); t.kind == 1 && t.k == 1 {
+						st.A |= aBfOne
+					}
+				}
 			}
 		}
 		return one(st)
@@ -701,10 +733,13 @@ func (a *c09Acct) armedWith(pf *PathFlow, v ssa.Value) int {
 	return res
 }
 
-func (a *c09Acct) storePend(pf *PathFlow, st PState, x *ssa.Store) PState {
+func (a *c09Acct) storePend(pf *PathFlow, st PState, x *ssa.Store, s c09Store) PState {
 	k := a.k
 	where := k.fname(x.Parent())
-	t := k.term(pf, x.Val)
+	t := c09Term{kind: 1}
+	if !s.zero {
+		t = k.term(pf, s.val)
+	}
 	switch {
 	case t.kind == 1 && t.k == 0:
 		switch {
@@ -735,7 +770,7 @@ func (a *c09Acct) storePend(pf *PathFlow, st PState, x *ssa.Store) PState {
 		st.A &^= aSignPos
 		st.A |= aSignZero
 		st.B &^= c09AllBits(bCur)
-	case k.isIncOf(x.Val, k.fPend):
+	case !s.zero && k.isIncOf(s.val, k.fPend):
 		if st.A&aW == 0 {
 			a.note("C09.L6-add", k.fname(a.root), a.pos(x), "", "pendingEvents is incremented outside the write lock section", true)
 		}
@@ -775,6 +810,17 @@ func (a *c09Acct) spawn(pf *PathFlow, st PState, g *ssa.Go) PState {
 	construct := k.fname(g.Parent()) + " go " + name
 	if body == nil || !k.follow(body) {
 		a.problem("the goroutine started at %s cannot be resolved", a.pos(g))
+	} else if key := pf.ContextKey() + a.pos(g); !a.goDone[key] {
+		// the goroutine body, explored in the context of this go statement
+		a.goDone[key] = true
+		sub := *a
+		sub.root, sub.rootKind = body, "go"
+		spf := &PathFlow{Follow: k.follow, Facts: k.fc, Funcs: k.fns, RootsOf: k.rootsOf, Instr: sub.instr, Edge: sub.edge, Return: sub.ret, Visited: a.visited}
+		pf.RunGo(g, spf, []PState{{}})
+		a.problems = sub.problems
+		for _, p := range spf.Problems {
+			a.problem("%s", p)
+		}
 	}
 	a.note("C09.L4-tracked", construct, a.pos(g), "wg.Add before go, wg.Done on every exit of the goroutine", "goroutine is not tracked in "+shortID(k.wgID)+" (no wg.Add before the go statement on some path): Close can return while it is still running", st.A&aAdded == 0)
 	st.A &^= aAdded
@@ -822,7 +868,7 @@ func (a *c09Acct) ret(pf *PathFlow, ret *ssa.Return, st PState) {
 // run explores one entry point.
 func (a *c09Acct) run(root *ssa.Function, kind string) {
 	a.root, a.rootKind = root, kind
-	pf := &PathFlow{Follow: a.k.follow, Facts: a.k.fc, Instr: a.instr, Edge: a.edge, Return: a.ret, Visited: a.visited}
+	pf := &PathFlow{Follow: a.k.follow, Facts: a.k.fc, Funcs: a.k.fns, RootsOf: a.k.rootsOf, Instr: a.instr, Edge: a.edge, Return: a.ret, Visited: a.visited}
 	pf.Run(root, []PState{{}})
 	for _, p := range pf.Problems {
 		a.problem("%s", p)
